@@ -13,7 +13,7 @@ Lemma no_set_while_removing s o k :
   step s (SetKeyK o k) = (s, RErr).
 Proof.
   intro H. repeat split; simpl; [| | |apply set_key_removing; assumption].
-  - destruct (negb (opted s o)); [reflexivity | apply set_key_removing; assumption].
+  - destruct (negb (active s o)); [reflexivity | apply set_key_removing; assumption].
   - unfold opt_in. destruct (opted s o); [reflexivity|]. rewrite H. reflexivity.
   - unfold opt_in. destruct (opted s o); [reflexivity|]. rewrite H. reflexivity.
 Qed.
@@ -55,36 +55,35 @@ Proof.
   pose proof (i_fin s C o f H3) as Hin. split; [apply (i_str_opt s C (f, o) Hin) | assumption].
 Qed.
 
-(* replacing a key that is in the stored validator set (first replacement of the epoch) schedules it for pruning at
-   cur+unb and keeps its reverse lookup *)
+(* replacing a key (first replacement of the epoch) — validating or not — schedules it for pruning at cur+unb and keeps
+   its reverse lookup *)
 Lemma replaced_key_scheduled s o c k : Inv s ->
-  opted s o = true -> k_op s o = Some c -> vs s c = true -> k_prev s o = None -> k_rev s k = None ->
+  active s o = true -> k_op s o = Some c -> k_prev s o = None -> k_rev s k = None ->
   let s' := fst (step s (SetKey o k)) in
   snd (step s (SetKey o k)) = ROk /\ In (cur s + unb s, c) (q_prune s') /\ k_rev s' c = Some o /\
   k_op s' o = Some k /\ k_rev s' k = Some o /\ k_prev s' o = Some c.
 Proof.
-  intros I Hopt Hop Hvs Hprev Hrev. pose proof (i_core s I) as C.
+  intros I Hact Hop Hprev Hrev. pose proof (i_core s I) as C.
+  assert (Hopt : opted s o = true) by (unfold active in Hact; apply andb_true_iff in Hact; tauto).
   assert (Hrm : k_rm s o = false).
   { destruct (k_rm s o) eqn:H; [|reflexivity]. destruct (i_rm s C o H) as [H1 _]. congruence. }
   assert (Hck : c <> k). { intro E. subst. rewrite (i_fwd s C o k Hop) in Hrev. discriminate. }
-  simpl. rewrite Hopt. cbn [negb]. unfold set_key. rewrite Hrm, Hrev, Hop. cbn [is_some].
+  simpl. rewrite Hact. cbn [negb]. unfold set_key. rewrite Hrm, Hrev, Hop. cbn [is_some].
   destruct (Z.eqb_spec c k) as [E|_]; [contradiction|]. rewrite Hprev. cbn [is_some fst snd].
-  unfold hook_replaced. simp. rewrite Hvs. simp. unfold completion_epoch, mset. simp. rewrite !Z.eqb_refl.
+  unfold hook_replaced. simp. unfold completion_epoch, mset. simp. rewrite !Z.eqb_refl.
   split; [reflexivity|]. split; [apply In_qappend; right; reflexivity|].
   destruct (Z.eqb_spec c k) as [E|_]; [contradiction|]. rewrite (i_fwd s C o c Hop). tauto.
 Qed.
 
-(* opting out with a key that is in the stored validator set schedules the completion at cur+unb; nothing is deleted *)
+(* opting out with a key — validating or not — schedules the completion at cur+unb; nothing is deleted *)
 Lemma optout_scheduled s o c : Inv s ->
-  opted s o = true -> k_op s o = Some c -> vs s c = true ->
+  active s o = true -> k_op s o = Some c ->
   let s' := fst (step s (OptOut o)) in
   snd (step s (OptOut o)) = ROk /\ In (cur s + unb s, o) (q_opt s') /\ fin s' o = Some (cur s + unb s) /\
   k_rm s' o = true /\ k_rev s' = k_rev s /\ k_op s' = k_op s.
 Proof.
-  intros I Hopt Hop Hvs. simpl. unfold opt_out. rewrite Hopt, Hop. cbn [negb].
-  assert (Hv : validating (with_rm (with_opted s (bset (opted s) o false)) (bset (k_rm s) o true)) o = true).
-  { unfold validating. simp. rewrite Hop, Hvs. reflexivity. }
-  rewrite Hv. cbn [fst snd]. simp. unfold completion_epoch, mset, bset. simp. rewrite !Z.eqb_refl.
+  intros I Hact Hop. simpl. unfold opt_out. rewrite Hact, Hop. cbn [negb fst snd]. simp.
+  unfold completion_epoch, mset, bset. simp. rewrite !Z.eqb_refl.
   repeat split; try reflexivity. apply In_qappend. right. reflexivity.
 Qed.
 
@@ -104,63 +103,47 @@ Proof.
   destruct (i_prune s C c Hq) as [_ Hnk].
   destruct h as [a|sel tick]; simpl in E.
   - destruct (is_tx a) eqn:Ht; [|congruence].
+    assert (Hsk : forall t o0 k, k_rev t = k_rev s -> k_op t = k_op s ->
+                  k_rev (fst (set_key t o0 k)) c = Some o' -> k_rev s c = Some o').
+    { intros t o0 k R1 R2 E0. unfold set_key in E0. destruct (k_rm t o0); simpl in E0; [congruence|].
+      destruct (k_rev t k) eqn:Hk; cbn [is_some] in E0; simpl in E0; [congruence|].
+      assert (Hck : c <> k) by (intro; subst; rewrite R1 in Hk; congruence).
+      destruct (k_op t o0) as [pk|].
+      - destruct (pk =? k); simpl in E0; [congruence|].
+        destruct (is_some (k_prev t o0)); simpl in E0; unfold hook_replaced in E0; simp; unfold mset in E0;
+          (destruct (Z.eqb_spec c k); [contradiction | congruence]).
+      - simpl in E0. unfold mset in E0. destruct (Z.eqb_spec c k); [contradiction | congruence]. }
     destruct a; simpl in Ht; try discriminate; simpl in E.
     + (* OptInKey *)
       destruct (opt_in s o0) as [s1 r1] eqn:E1. destruct r1; simpl in E; try congruence.
-      assert (Hs1 : k_rev s1 = k_rev s /\ k_op s1 = k_op s /\ k_prev s1 = k_prev s /\ vs s1 = vs s).
+      assert (Hs1 : k_rev s1 = k_rev s /\ k_op s1 = k_op s).
       { unfold opt_in in E1. destruct (opted s o0); [inversion E1; subst; tauto|].
         destruct (k_rm s o0); inversion E1; subst; simp; tauto. }
-      destruct Hs1 as (R1 & R2 & R3 & R4).
+      destruct Hs1 as (R1 & R2).
       destruct (set_key s1 o0 k) as [s2 r2] eqn:E2. destruct r2; simpl in E; try congruence.
-      unfold set_key in E2. destruct (k_rm s1 o0); [inversion E2; subst; congruence|].
-      destruct (k_rev s1 k) eqn:Hk; cbn [is_some] in E2; [inversion E2; subst; congruence|].
-      assert (Hck : c <> k) by (intro; subst; rewrite R1 in Hk; congruence).
-      destruct (k_op s1 o0) as [pk|] eqn:Hpk.
-      * destruct (pk =? k); [inversion E2; subst; congruence|].
-        assert (Hcp : c <> pk) by (intro; subst; rewrite R2 in Hpk; apply (Hnk o0); assumption).
-        destruct (is_some (k_prev s1 o0)); inversion E2; subst; clear E2.
-        -- simp. unfold mset in E. destruct (Z.eqb_spec c k); [contradiction | congruence].
-        -- unfold hook_replaced in E. simp. destruct (vs s1 pk); simp; unfold mset, mdel in E;
-             repeat match type of E with context [?a =? ?b] => destruct (Z.eqb_spec a b); try contradiction end; congruence.
-      * inversion E2; subst; clear E2. simp. unfold mset in E. destruct (Z.eqb_spec c k); [contradiction | congruence].
+      assert (E3 : k_rev (fst (set_key s1 o0 k)) c = Some o') by (rewrite E2; exact E).
+      rewrite (Hsk s1 o0 k R1 R2 E3) in Hrev. congruence.
     + (* OptIn *)
       unfold opt_in in E. destruct (opted s o0); simpl in E; [congruence|]. destruct (k_rm s o0); simpl in E; congruence.
     + (* SetKey *)
-      destruct (negb (opted s o0)); simpl in E; [congruence|].
-      unfold set_key in E. destruct (k_rm s o0); simpl in E; [congruence|].
-      destruct (k_rev s k) eqn:Hk; cbn [is_some] in E; simpl in E; [congruence|].
-      assert (Hck : c <> k) by (intro; subst; congruence).
-      destruct (k_op s o0) as [pk|] eqn:Hpk.
-      * destruct (pk =? k); simpl in E; [congruence|].
-        assert (Hcp : c <> pk) by (intro; subst; apply (Hnk o0); assumption).
-        destruct (is_some (k_prev s o0)); simpl in E.
-        -- unfold mset in E. destruct (Z.eqb_spec c k); [contradiction | congruence].
-        -- unfold hook_replaced in E. simp. destruct (vs s pk); simp; unfold mset, mdel in E;
-             repeat match type of E with context [?a =? ?b] => destruct (Z.eqb_spec a b); try contradiction end; congruence.
-      * simpl in E. unfold mset in E. destruct (Z.eqb_spec c k); [contradiction | congruence].
+      destruct (negb (active s o0)); simpl in E; [congruence|].
+      rewrite (Hsk s o0 k eq_refl eq_refl E) in Hrev. congruence.
     + (* OptOut *)
-      unfold opt_out in E. destruct (negb (opted s o0)); simpl in E; [congruence|].
-      destruct (k_op s o0) as [k0|] eqn:Hk0; simpl in E; [|congruence].
-      destruct (validating _ o0); simpl in E; [congruence|].
-      destruct (complete_removal _ o0) as [s2|] eqn:Ec; simpl in E; [|congruence].
-      unfold complete_removal in Ec. simp. destruct (negb (bset (k_rm s) o0 true o0)); [inversion Ec; subst; simp; congruence|].
-      rewrite Hk0 in Ec. inversion Ec; subst; clear Ec. simp. unfold mdel in E. destruct (c =? k0); congruence.
+      unfold opt_out in E. destruct (negb (active s o0)); simpl in E; [congruence|].
+      destruct (k_op s o0); simpl in E; congruence.
     + (* Undelegate *)
       unfold undelegate in E. destruct (k_rm s o0); [destruct (fin s o0)|destruct (validating s o0)]; simpl in E; congruence.
     + (* SetUnb *)
       destruct (0 <? n); simpl in E; congruence.
     + (* SetKeyK *)
-      unfold set_key in E. destruct (k_rm s o0); simpl in E; [congruence|].
-      destruct (k_rev s k) eqn:Hk; cbn [is_some] in E; simpl in E; [congruence|].
-      assert (Hck : c <> k) by (intro; subst; congruence).
-      destruct (k_op s o0) as [pk|] eqn:Hpk.
-      * destruct (pk =? k); simpl in E; [congruence|].
-        assert (Hcp : c <> pk) by (intro; subst; apply (Hnk o0); assumption).
-        destruct (is_some (k_prev s o0)); simpl in E.
-        -- unfold mset in E. destruct (Z.eqb_spec c k); [contradiction | congruence].
-        -- unfold hook_replaced in E. simp. destruct (vs s pk); simp; unfold mset, mdel in E;
-             repeat match type of E with context [?a =? ?b] => destruct (Z.eqb_spec a b); try contradiction end; congruence.
-      * simpl in E. unfold mset in E. destruct (Z.eqb_spec c k); [contradiction | congruence].
+      rewrite (Hsk s o0 k eq_refl eq_refl E) in Hrev. congruence.
+    + (* Jail *)
+      unfold set_jailed in E. destruct (k_rev s c0) as [o1|]; [destruct (info s o1)|]; simpl in E; congruence.
+    + (* Unjail *)
+      unfold set_jailed in E. destruct (k_rev s c0) as [o1|]; [destruct (info s o1)|]; simpl in E; congruence.
+    + congruence.
+    + (* SetClock *)
+      destruct (nothing_scheduled s); simpl in E; congruence.
   - pose proof (end_block_effect s sel I) as H. cbv zeta in H.
     destruct H as (_ & _ & _ & _ & _ & _ & _ & _ & H1 & H2).
     assert (E' : k_rev (fst (end_block s sel)) c = Some o') by (destruct tick; exact E). clear E. rename E' into E.
@@ -171,15 +154,62 @@ Qed.
 
 Lemma slashable_until_matured l : forall s c o f, Inv s ->
   In (f, c) (q_prune s) -> k_rev s c = Some o ->
-  let s' := hrun s l in
-  cur s' <= f -> k_rev s' c = Some o /\ In (f, c) (q_prune s').
+  all_states (fun t => cur t <= f) s l ->
+  let s' := hrun s l in k_rev s' c = Some o /\ In (f, c) (q_prune s').
 Proof.
-  induction l as [|h l IH]; intros s c o f I Hin Hrev; simpl; [tauto|]. intro Hc.
+  induction l as [|h l IH]; intros s c o f I Hin Hrev Hall; simpl; [tauto|].
+  simpl in Hall. destruct Hall as [_ Hall]. pose proof (all_states_head _ _ _ Hall) as Hc. simpl in Hc.
   pose proof (hstep_inv s h I) as I1. destruct (hstep_keeps s h I) as (_ & B2 & _).
-  pose proof (cur_mono_hrun l _ I1) as Hm.
   destruct (B2 (f, c) Hin) as [Hin1|Hlt]; [|simpl in Hlt; lia].
   apply IH; try assumption.
   apply rev_stable_step; try assumption; apply in_map_iff; exists (f, c); tauto.
+Qed.
+
+(* the same, for the address of an operator that is opting out: the key indexes are untouched until the completion *)
+Lemma optout_resolvable_until_matured l : forall s o c f, Inv s ->
+  In (f, o) (q_opt s) -> k_op s o = Some c ->
+  all_states (fun t => cur t <= f) s l ->
+  let s' := hrun s l in k_op s' o = Some c /\ k_rev s' c = Some o /\ In (f, o) (q_opt s').
+Proof.
+  induction l as [|h l IH]; intros s o c f I Hin Hop Hall; simpl.
+  { split; [assumption|]. split; [apply (i_fwd s (i_core s I)); assumption | assumption]. }
+  simpl in Hall. destruct Hall as [_ Hall]. pose proof (all_states_head _ _ _ Hall) as Hc. simpl in Hc.
+  pose proof (hstep_inv s h I) as I1. destruct (hstep_keeps s h I) as (B1 & _ & _).
+  destruct (B1 (f, o) Hin) as [Hin1|Hlt]; [|simpl in Hlt; lia].
+  apply IH; try assumption.
+  (* the operator is removing (marker set) in s and after the step, so nothing can touch its forward index *)
+  pose proof (i_core s I) as C. destruct (i_qopt s C f o Hin) as [Hrm _].
+  destruct h as [a|sel tick]; simpl.
+  - destruct (is_tx a) eqn:Ht; [|assumption].
+    destruct a; simpl in Ht; try discriminate; simpl.
+    + unfold opt_in. destruct (Z.eq_dec o0 o) as [->|Ne].
+      * destruct (opted s o); [assumption|]. rewrite Hrm. assumption.
+      * destruct (opted s o0); [assumption|]. destruct (k_rm s o0); [assumption|]. simpl.
+        destruct (set_key _ o0 k) as [s2 r2] eqn:E2. destruct r2; simpl; try assumption.
+        assert (E3 : k_op (fst (set_key (with_jail (with_opted s (bset (opted s) o0 true)) (bset (jailed s) o0 false) (bset (info s) o0 true)) o0 k)) o = Some c).
+        { apply set_key_other; [assumption | exact Hop]. }
+        rewrite E2 in E3. exact E3.
+    + unfold opt_in. destruct (opted s o0); [assumption|]. destruct (k_rm s o0); simpl; assumption.
+    + destruct (negb (active s o0)); [assumption|]. destruct (Z.eq_dec o0 o) as [->|Ne].
+      * rewrite set_key_removing; assumption.
+      * apply set_key_other; assumption.
+    + unfold opt_out. destruct (negb (active s o0)); [assumption|]. destruct (k_op s o0); simpl; assumption.
+    + unfold undelegate. destruct (k_rm s o0); [destruct (fin s o0)|destruct (validating s o0)]; simpl; assumption.
+    + destruct (0 <? n); simpl; assumption.
+    + destruct (Z.eq_dec o0 o) as [->|Ne].
+      * rewrite set_key_removing; assumption.
+      * apply set_key_other; assumption.
+    + unfold set_jailed. destruct (k_rev s c0) as [o1|]; [destruct (info s o1)|]; simpl; assumption.
+    + unfold set_jailed. destruct (k_rev s c0) as [o1|]; [destruct (info s o1)|]; simpl; assumption.
+    + assumption.
+    + destruct (nothing_scheduled s); simpl; assumption.
+  - (* block boundary: o is still queued afterwards, hence still removing, hence still has its key: the same key *)
+    set (t := hstep s (NextBlock sel tick)) in *.
+    pose proof (i_core t I1) as C1.
+    destruct (i_qopt t C1 f o Hin1) as [Hrm1 _]. destruct (i_rm t C1 o Hrm1) as (_ & Hk & _).
+    destruct (k_op t o) as [c'|] eqn:Hop'; [|congruence].
+    assert (Hop0 : k_op (fst (end_block s sel)) o = Some c') by (subst t; simpl in Hop'; destruct tick; exact Hop').
+    apply end_block_op_mono in Hop0. change (k_op t o = Some c). rewrite Hop'. congruence.
 Qed.
 
 (* ... is moved to the pending list by the block that closes epoch f and pruned by that block's EndBlock *)
@@ -189,6 +219,39 @@ Proof.
   intros I He Hin. simpl. pose proof (end_block_effect s sel I) as H. cbv zeta in H.
   destruct H as (_ & _ & _ & _ & _ & _ & _ & _ & _ & H2). destruct (H2 He) as (_ & _ & _ & _ & _ & Hp & _). apply Hp. assumption.
 Qed.
+
+(* ---- slash / jail by consensus address ---- *)
+Lemma jail_by_address s c o (v : bool) : k_rev s c = Some o ->
+  slash_target s c = Some o /\
+  (let s' := fst (step s (if v then Jail c else Unjail c)) in
+   jailed s' o = (if info s o then v else jailed s o) /\ (forall o', o' <> o -> jailed s' o' = jailed s o') /\
+   k_rev s' = k_rev s /\ k_op s' = k_op s /\ k_ch s' = k_ch s /\ k_prev s' = k_prev s /\ k_rm s' = k_rm s /\
+   opted s' = opted s /\ vs s' = vs s /\ q_opt s' = q_opt s /\ q_prune s' = q_prune s /\ q_und s' = q_und s /\
+   holds s' = holds s).
+Proof.
+  intro H. split; [exact H|]. destruct v; simpl; unfold set_jailed; rewrite H; destruct (info s o); simp; unfold bset;
+    rewrite ?Z.eqb_refl; repeat split; try reflexivity; intros o' Ne; destruct (Z.eqb_spec o' o); congruence.
+Qed.
+
+Lemma jail_unresolved s c : k_rev s c = None ->
+  slash_target s c = None /\ step s (Jail c) = (s, ROk) /\ step s (Unjail c) = (s, ROk) /\ jail_probe s c = false.
+Proof. intro H. unfold slash_target, jail_probe. simpl. unfold set_jailed. rewrite H. tauto. Qed.
+
+(* a jailed operator cannot leave: neither opt out nor (through the message) replace its key *)
+Lemma jailed_cannot_leave s o k : jailed s o = true ->
+  step s (OptOut o) = (s, RErr) /\ step s (SetKey o k) = (s, RErr).
+Proof.
+  intro H. simpl. unfold opt_out, active. rewrite H, andb_false_r. tauto.
+Qed.
+
+(* whatever the selection by vote power: the set stored when an epoch closes contains only current keys of operators
+   that are opted in and not jailed, each resolving to that operator *)
+Lemma jailed_not_selected s sel : Inv s -> ep_end s = true ->
+  let s' := fst (step s (EndBlock sel)) in
+  forall c, vs s' c = true ->
+    exists o, In o sel /\ opted s' o = true /\ jailed s' o = false /\ k_op s' o = Some c /\ k_rev s' c = Some o /\
+              jailed s' = jailed s.
+Proof. intros I He. simpl. apply end_block_vs; assumption. Qed.
 
 (* the key replaced during this epoch, while it is still validating, resolves to the operator that replaced it *)
 Lemma previous_key_resolvable s0 h : Inv s0 ->
